@@ -8,7 +8,10 @@ that is `0` outside the index box, so `=` between full tensors is equality of al
 All statements are over an arbitrary commutative ring `α` (resp. field for ACA), for every
 order, shape, rank (rank 0 and singleton axes included) and every nesting depth.
 -/
-import Pyiga.Proofs.TensorAddSpec
+import Pyiga.Proofs.TensorPad
+import Pyiga.Proofs.TensorOperator
+import Pyiga.Proofs.TensorGen
+import Pyiga.Proofs.TensorT2C
 import Mathlib.Tactic.FieldSimp
 
 set_option linter.unusedSectionVars false
@@ -98,6 +101,18 @@ theorem pad_empty_axis_asCoded_raises :
     (match (Ten.full (Full.ofFn [0, 2] (fun _ => (0 : Int)))).pad [some (0, 1), some (1, 0)] false with
       | .ok T => T.shape | .error _ => []) = [1, 3] := by decide
 
+/-- `CanonicalTensor.from_tensor(TuckerTensor)`: one rank-one term per non-zero core entry (exact zeros only,
+fix D17) — or the rank-0 tensor when the core vanishes — has the same expansion. -/
+theorem faithful_tucker_to_can [DecidableEq α] (Us : List (Mat α)) (X : Full α) (T : Ten α)
+    (hw : (Ten.tucker Us X).WF) (h : canFromTensor (.tucker Us X) = .ok T) :
+    T.asarray = (Ten.tucker Us X).asarray ∧ T.WF := by
+  obtain ⟨hw', hs, he⟩ := t2c_spec Us X T hw h
+  refine ⟨?_, hw'⟩
+  simp only [Ten.asarray, hs]
+  exact ofFn_congr _ _ _ (fun I hI => by
+    simp only [Ten.entry]
+    exact he I (by have := inBox_length hI; simpa using this))
+
 /-- expanding an expanded tensor changes nothing (`asarray` is idempotent) -/
 theorem asarray_idem (T : Ten α) : (Ten.full T.asarray).asarray = T.asarray := by
   simp only [Ten.asarray, Ten.shape, ofFn_shape, Ten.entry]
@@ -147,12 +162,42 @@ theorem faithful_tsum (Xs : List (Ten α)) (T : Ten α) (hw : WFList Xs) (h : mk
   rw [entrySum_eq (X :: Xr) X.shape I hall hI, List.map_map]
   rfl
 
+/-- `apply_tprod(ops, T)` (`nway_prod`; `None` = identity, fewer operators than axes allowed) for an
+ndarray, Canonical or Tucker operand is the multi-mode product of the expansion. -/
+theorem faithful_nway_leaf (T T' : Ten α) (ops : List (Option (Mat α))) (hw : T.WF) (hleaf : T.isLeaf)
+    (h : T.nway false ops = .ok T') : T.asarray.nway ops = .ok T'.asarray ∧ T'.WF ∧ T'.isLeaf := by
+  obtain ⟨hw', hleaf', hsh, he⟩ := nway_leaf_spec T T' ops hw hleaf h
+  refine ⟨?_, hw', hleaf'⟩
+  simp only [Full.nway]
+  have : nwayShape ops T.asarray.shape = some T'.shape := hsh
+  rw [this]
+  show Except.ok (Full.ofFn T'.shape (fun I => nwayEntry ops I T.asarray.get)) = Except.ok (Full.ofFn T'.shape T'.entry)
+  rw [ofFn_congr _ _ _ (fun I hI => (he I hI).symm)]
+
+/-- `pad(T, pad_width)` (`None` = `(0,0)`) for an ndarray, Canonical or Tucker operand is `np.pad` of the
+expansion. -/
+theorem faithful_pad_leaf (T T' : Ten α) (pw : List (Option (Nat × Nat))) (hw : T.WF) (hleaf : T.isLeaf)
+    (h : T.pad pw = .ok T') : T.asarray.pad (padWidths pw) = .ok T'.asarray ∧ T'.WF ∧ T'.isLeaf := by
+  obtain ⟨hw', hleaf', e⟩ := pad_leaf_spec T T' pw hw hleaf h
+  exact ⟨e, hw', hleaf'⟩
+
+/-- decidable form of `Ten.isLeaf` -/
+def leafB : Ten α → Bool
+  | .full _ => true
+  | .can _ => true
+  | .tucker _ _ => true
+  | _ => false
+
+theorem leafB_isLeaf (T : Ten α) (h : leafB T = true) : T.isLeaf := by
+  cases T <;> simp [leafB, Ten.isLeaf] at h ⊢
+
 /-! ## every operation sequence -/
 
 /-- operations of the arithmetic fragment; operands are positions in the environment, a
 successful result is appended to it -/
-inductive SeqOp where
+inductive SeqOp (α : Type) where
   | neg (a : Nat) | add (a b : Nat) | sub (a b : Nat) | tsum (refs : List Nat) | asarr (a : Nat) | c2t (a : Nat)
+  | nway (a : Nat) (ops : List (Option (Mat α))) | pad (a : Nat) (pw : List (Option (Nat × Nat))) | t2c (a : Nat)
 
 /-- fetch operands by position -/
 def getAll {β : Type} (env : List β) : List Nat → Option (List β)
@@ -162,7 +207,7 @@ def getAll {β : Type} (env : List β) : List Nat → Option (List β)
     | _, _ => none
 
 /-- the operation on tensor objects (the library's code) -/
-def stepT (env : List (Ten α)) : SeqOp → Option (Except Err (Ten α))
+def stepT [DecidableEq α] (env : List (Ten α)) : SeqOp α → Option (Except Err (Ten α))
   | .neg a => (env[a]?).map Ten.neg
   | .add a b => do let A ← env[a]?; let B ← env[b]?; pure (A.add B)
   | .sub a b => do let A ← env[a]?; let B ← env[b]?; pure (A.sub B)
@@ -173,23 +218,37 @@ def stepT (env : List (Ten α)) : SeqOp → Option (Except Err (Ten α))
       match A with
       | .can Xs => pure (tuckerFromTensor (.can Xs))
       | _ => none
+  | .nway a ops => do
+      let A ← env[a]?
+      if leafB A then pure (A.nway false ops) else none
+  | .pad a pw => do
+      let A ← env[a]?
+      if leafB A then pure (A.pad pw) else none
+  | .t2c a => do
+      let A ← env[a]?
+      match A with
+      | .tucker Us X => pure (canFromTensor (.tucker Us X))
+      | _ => none
 
 /-- the same operation on the expanded tensors (numpy) -/
-def stepF (env : List (Full α)) : SeqOp → Option (Except Err (Full α))
+def stepF (env : List (Full α)) : SeqOp α → Option (Except Err (Full α))
   | .neg a => (env[a]?).map (fun A => .ok A.neg)
   | .add a b => do let A ← env[a]?; let B ← env[b]?; pure (A.add B)
   | .sub a b => do let A ← env[a]?; let B ← env[b]?; pure (A.sub B)
   | .tsum refs => (getAll env refs).map sumFull
   | .asarr a => (env[a]?).map (fun A => .ok A)
   | .c2t a => (env[a]?).map (fun A => .ok A)
+  | .nway a ops => (env[a]?).map (fun A => A.nway ops)
+  | .pad a pw => (env[a]?).map (fun A => A.pad (padWidths pw))
+  | .t2c a => (env[a]?).map (fun A => .ok A)
 
 /-- run a sequence; `none` as soon as a step refers to a missing operand or raises -/
-def runT : List (Ten α) → List SeqOp → Option (List (Ten α))
+def runT [DecidableEq α] : List (Ten α) → List (SeqOp α) → Option (List (Ten α))
   | env, [] => some env
   | env, op :: ops => match stepT env op with
       | some (.ok T) => runT (env ++ [T]) ops
       | _ => none
-def runF : List (Full α) → List SeqOp → Option (List (Full α))
+def runF : List (Full α) → List (SeqOp α) → Option (List (Full α))
   | env, [] => some env
   | env, op :: ops => match stepF env op with
       | some (.ok T) => runF (env ++ [T]) ops
@@ -222,7 +281,7 @@ theorem wfList_of_forall : ∀ (Xs : List (Ten α)), (∀ X ∈ Xs, X.WF) → WF
 
 /-- one step: if the library's operation succeeds on tensor objects, the numpy operation on
 their expansions succeeds with the expansion of the result -/
-theorem step_faithful (env : List (Ten α)) (hw : ∀ T ∈ env, T.WF) (op : SeqOp) (T : Ten α)
+theorem step_faithful [DecidableEq α] (env : List (Ten α)) (hw : ∀ T ∈ env, T.WF) (op : SeqOp α) (T : Ten α)
     (h : stepT env op = some (.ok T)) :
     stepF (env.map Ten.asarray) op = some (.ok T.asarray) ∧ T.WF := by
   cases op with
@@ -266,15 +325,46 @@ theorem step_faithful (env : List (Ten α)) (hw : ∀ T ∈ env, T.WF) (op : Seq
     | tucker _ _ => simp at h
     | sum _ _ => simp at h
     | prod _ _ => simp at h
+  | nway a ops =>
+    simp only [stepT, Option.bind_eq_bind, Option.bind_eq_some_iff] at h
+    obtain ⟨A, hA, h⟩ := h
+    split at h
+    · rename_i hl
+      simp at h
+      obtain ⟨e, w, _⟩ := faithful_nway_leaf A T ops (hw A (List.mem_of_getElem? hA)) (leafB_isLeaf A hl) h
+      exact ⟨by simp [stepF, hA, e], w⟩
+    · cases h
+  | pad a pw =>
+    simp only [stepT, Option.bind_eq_bind, Option.bind_eq_some_iff] at h
+    obtain ⟨A, hA, h⟩ := h
+    split at h
+    · rename_i hl
+      simp at h
+      obtain ⟨e, w, _⟩ := faithful_pad_leaf A T pw (hw A (List.mem_of_getElem? hA)) (leafB_isLeaf A hl) h
+      exact ⟨by simp [stepF, hA, e], w⟩
+    · cases h
+  | t2c a =>
+    simp only [stepT, Option.bind_eq_bind, Option.bind_eq_some_iff] at h
+    obtain ⟨A, hA, h⟩ := h
+    cases A with
+    | tucker Us X =>
+      simp at h
+      obtain ⟨e, w⟩ := faithful_tucker_to_can Us X T (hw _ (List.mem_of_getElem? hA)) h
+      exact ⟨by simp [stepF, hA, e], w⟩
+    | full _ => simp at h
+    | can _ => simp at h
+    | sum _ _ => simp at h
+    | prod _ _ => simp at h
 
 /-- **faithfulness for every operation sequence** of the arithmetic fragment
-(`neg`, `+`, `-`, `TensorSum(...)`, `asarray`, Canonical→Tucker conversion; all five tensor
-classes arbitrarily nested, mixed formats, any order/shape/rank): running the library's
+(`neg`, `+`, `-`, `TensorSum(...)`, `asarray`, Canonical→Tucker and Tucker→Canonical conversion on all five tensor
+classes arbitrarily nested, mixed formats, any order/shape/rank; `apply_tprod` and `pad` on
+ndarray/Canonical/Tucker operands): running the library's
 operations on tensor objects and expanding at the end equals running numpy's operations on
 the expansions, for sequences of any length.  The remaining operations of the model
-(getitem/squeeze/apply_tprod/pad/truncate/Tucker→Canonical) are tied by the correspondence
+(getitem/squeeze/truncate, apply_tprod/pad on TensorSum/TensorProd) are tied by the correspondence
 stream and the numpy oracle; their sequence theorem is `faithful_seq_full` below (statement). -/
-theorem faithful_seq_partial : ∀ (ops : List SeqOp) (env env' : List (Ten α)), (∀ T ∈ env, T.WF) →
+theorem faithful_seq_partial [DecidableEq α] : ∀ (ops : List (SeqOp α)) (env env' : List (Ten α)), (∀ T ∈ env, T.WF) →
     runT env ops = some env' →
     runF (env.map Ten.asarray) ops = some (env'.map Ten.asarray) ∧ ∀ T ∈ env', T.WF
   | [], env, env', hw, h => by
@@ -299,7 +389,7 @@ theorem faithful_seq_partial : ∀ (ops : List SeqOp) (env env' : List (Ten α))
 
 /-- non-vacuity: a mixed-format sequence runs (Canonical 2×2 of rank 1 plus its Tucker form,
 negated, summed) -/
-example : (runT (α := Int) [Ten.can [Mat.ones 2 1, Mat.ones 2 1]] [.c2t 0, .add 0 1, .neg 2, .tsum [2, 3]]).isSome = true := by
+example : (runT (α := Int) [Ten.can [Mat.ones 2 1, Mat.ones 2 1]] [.c2t 0, .add 0 1, .neg 2, .tsum [2, 3], .pad 1 [some (1, 0), none], .nway 0 [some (Mat.ones 3 2)], .t2c 1]).isSome = true := by
   decide
 
 end Ring
@@ -309,12 +399,88 @@ end Ring
 /-- Full-strength sequence statement over the driver's complete operation set.  The tensor-side
 step function `stepAll` and the numpy-side `stepAllF` are parameters here: the statement is
 that the same induction goes through once each remaining operation (`getitem` incl.
-`_normalize_indices`, `squeeze`, `apply_tprod`, `pad`, `truncate`, Tucker→Canonical) has its
+`_normalize_indices`, `squeeze`, `truncate`, `apply_tprod`/`pad` on sums and products) has its
 `faithful_<op>` lemma.  NOT proved; those operations are covered by the exact correspondence
 diff and the numpy oracle on every generated step. -/
 def faithful_seq_full (α : Type) [CommRing α] [DecidableEq α] : Prop :=
   ∀ (T T' : Ten α) (I : List PyIndex), T.WF → T.getitem I = .ok (.t T') →
     ∃ n, normalizeIndices I T.shape = .ok n ∧ (T.asarray.take n.idx).squeeze n.singl = .ok T'.asarray
+
+/-! ## CanonicalOperator: the algebra commutes with `asmatrix()` (partial: `+`, `-`, unary `-`, `.T`) -/
+section Operator
+variable {α : Type} [CommRing α]
+
+/-- `(A + B).asmatrix() = A.asmatrix() + B.asmatrix()` entrywise, any Kronecker ranks and any number of factors -/
+theorem operator_add (A B C : COp α) (h : A.add B = .ok C) (i j : Nat) :
+    C.asmatrix.get i j = A.asmatrix.get i j + B.asmatrix.get i j := by
+  simp only [COp.add] at h
+  split at h
+  · rw [asmatrix_get, asmatrix_get, asmatrix_get, mkCOp_terms _ _ h, List.map_append, sumL_append]
+  · cases h
+
+/-- `(-A).asmatrix() = -A.asmatrix()`: negating the first factor of every term negates every Kronecker product -/
+theorem operator_neg (A C : COp α) (h : A.neg = .ok C) (i j : Nat) :
+    C.asmatrix.get i j = - A.asmatrix.get i j := by
+  simp only [COp.neg] at h
+  split at h
+  · cases h
+  · rename_i hne
+    rw [asmatrix_get, asmatrix_get, mkCOp_terms _ _ h, List.map_map, ← sumL_map_neg]
+    refine sumL_map_congr _ _ _ (fun t ht => ?_)
+    cases t with
+    | nil =>
+      exfalso; apply hne
+      exact List.any_eq_true.2 ⟨[], ht, rfl⟩
+    | cons X r => exact multiKron_neg_get X r i j
+
+/-- `(A - B).asmatrix() = A.asmatrix() - B.asmatrix()` -/
+theorem operator_sub (A B C : COp α) (h : A.sub B = .ok C) (i j : Nat) :
+    C.asmatrix.get i j = A.asmatrix.get i j - B.asmatrix.get i j := by
+  simp only [COp.sub] at h
+  obtain ⟨N, hN, h⟩ := bind_ok _ _ _ h
+  rw [operator_add A N C h, operator_neg B N hN]; ring
+
+/-- `A.T.asmatrix()` is the transpose of `A.asmatrix()` (entries and shape of every Kronecker product) -/
+theorem operator_T (A C : COp α) (h : A.T = .ok C) (i j : Nat) :
+    C.asmatrix.get i j = A.asmatrix.get j i := by
+  simp only [COp.T] at h
+  rw [asmatrix_get, asmatrix_get, mkCOp_terms _ _ h, List.map_map]
+  refine sumL_map_congr _ _ _ (fun t _ => ?_)
+  show (multiKron (t.map Mat.transpose)).get i j = _
+  rw [multiKron_transpose]; rfl
+
+/-- full statement of `operator_faithful` for the two operations that are NOT proved in Lean: composition is
+the matrix product of the `asmatrix()` forms and `apply` is `asmatrix() · vec`.  (Both are checked on every
+generated operator sequence by the correspondence stream and the dense numpy oracle.) -/
+def operator_faithful_full (α : Type) [CommRing α] : Prop :=
+  (∀ (A B C : COp α), A.mul B = .ok C → ∀ i j, i < C.asmatrix.rows → j < C.asmatrix.cols →
+      C.asmatrix.get i j = sumN A.asmatrix.cols (fun k => A.asmatrix.get i k * B.asmatrix.get k j)) ∧
+  (∀ (A : COp α) (X Y : Ten α), X.WF → A.apply X = .ok Y → ∀ I, inBox I Y.shape = true →
+      Y.entry I = sumN A.asmatrix.cols (fun k => A.asmatrix.get (toSeq I Y.shape) k * X.entry (fromSeq k X.shape)))
+end Operator
+
+/-! ## entry generators -/
+section Generator
+variable {α : Type} [Zero α]
+
+/-- **`TensorGenerator.from_array(X)[I]` returns exactly the entries `X[I]`** for every index expression
+(ints, negative ints, slices with steps, index lists, missing trailing axes; the same errors for malformed
+ones): the entries computed along `utils.cartesian_product` of the normalised index ranges and reshaped in C
+order are the per-axis selection of `X`, with the integer-indexed axes squeezed. -/
+theorem generator_getitem (X : Full α) (I : List PyIndex) :
+    (Gen.fromArray X).getitem I =
+      (do let n ← normalizeIndices I X.shape; (X.take n.idx).squeeze n.singl) := by
+  simp only [Gen.getitem, Gen.fromArray]
+  cases h : normalizeIndices I X.shape with
+  | error e => rfl
+  | ok n =>
+    simp only [bind, Except.bind]
+    rw [normalizeIndices_shape I X.shape n h, gen_values]
+
+/-- non-vacuity: `G[::-1, [1,0]]` on a 3×2 array -/
+example : ((Gen.fromArray (Full.ofList [3, 2] [0, 1, 2, 3, 4, 5] : Full Int)).getitem
+    [.slice none none (some (-1)), .list [1, 0]]).toOption.map Full.toList = some [5, 4, 3, 2, 1, 0] := by decide
+end Generator
 
 /-! ## find_truncation_rank: the error budget (loop invariant) -/
 section Trunc
